@@ -130,9 +130,8 @@ func (m *ModuleSecureLink) validateHandler(request *bfe_basic.Request) (int, *bf
 		case ErrReqExpired:
 			m.state.ReqExpired.Inc(1)
 		}
-		return bfe_module.BfeHandlerResponse, &bfe_http.Response{
-			StatusCode: 403,
-		}
+		return bfe_module.BfeHandlerResponse,
+			bfe_basic.CreateInternalResp(request, bfe_http.StatusForbidden)
 	}
 
 	return bfe_module.BfeHandlerGoOn, nil
